@@ -194,7 +194,7 @@ SPEC = {
     "rule": "cases = one hand-written query per rewrite rule / lowering + FOCUSED FAMILIES (harness/focused.go: variable-length step + fixed hops with every subset of the suffix nodes "
             "already bound; aggregate-only RETURN incl. collect / size(collect()) with LIMIT and no ORDER BY; the aggregate-traversal-count shape with every range form incl. *0..; "
             "collect(node) AS xs used under IN with every way of reading xs afterwards; bindings read by later clauses; named path + pattern predicate over reversible patterns with the path / "
-            "nodes(p) / relationships(p) observed directly and through WITH; string predicates with backslash / % / _ / quote literals; every grammar spelling of the ORDER BY direction — the direction handed to the reference and to the model pair is read from the TEXT, harness/sortdir.go) + FRAGMENT queries (the generators of C01's tie: stage S1, stage S2b (one hop with WHERE), stage S2c (chains, with and without WHERE conjuncts over single variables), stage S1c / S2n (count over a node pattern / a hop), stage S2L (a hop with LIMIT k and no ORDER BY: limit pushdown), and `MATCH (n[:K...]) RETURN count(n)`; for these the driver also "
+            "nodes(p) / relationships(p) observed directly and through WITH; string predicates with backslash / % / _ / quote literals; every grammar spelling of the ORDER BY direction — the direction handed to the reference and to the model pair is read from the TEXT, harness/sortdir.go; exact-length expansions in the spellings `*n` / `*n..n` next to a proper range, with either endpoint bound by an earlier clause and with fixed hops after them — family exact-range) + FRAGMENT queries (the generators of C01's tie: stage S1, stage S2b (one hop with WHERE), stage S2c (chains, with and without WHERE conjuncts over single variables), stage S1c / S2n (count over a node pattern / a hop), stage S2L (a hop with LIMIT k and no ORDER BY: limit pushdown), and `MATCH (n[:K...]) RETURN count(n)`; for these the driver also "
             "compares both REAL statements with the model variants trVariantL of opt_equiv / opt_equiv_limit (either join order of a hop; on S2L the optimised model statement carries the LIMIT on the hop frame too) — outcome frag-tie, a difference is a VIOLATION even when the evaluations agree) + every Cypher text of the repository corpora the translator accepts + structured random queries "
             "(levels 1-5, splitmix64(VERIF_SEED)); each is translated twice by the REAL translator: `Translate` (optimised) and the verif-tagged hook `TranslateUnoptimized` "
             "(hooks/C02.patch: no rewrite rule, no lowering plan, no fast path), plus rules-only / lowerings-only variants to attribute a difference. Both statements are evaluated by "
